@@ -15,7 +15,7 @@ theorem getLocation_on_boundary (r : Rect64) (p : Point64) (h : wf r) :
     (getLocation r p).2 = false ↔
       ((p.X = r.left ∨ p.X = r.right) ∧ r.top ≤ p.Y ∧ p.Y ≤ r.bottom) ∨
       ((p.Y = r.top ∨ p.Y = r.bottom) ∧ r.left ≤ p.X ∧ p.X ≤ r.right) := by
-  sorry
+  exact Proofs.C06.getLocation_on_boundary r p
 
 /-- off the boundary the location is Inside exactly for interior points, otherwise names a side
     the point lies strictly beyond -/
@@ -24,7 +24,7 @@ theorem getLocation_off_boundary (r : Rect64) (p : Point64) (h : wf r) (hb : (ge
     ((getLocation r p).1 = 0 → p.X < r.left) ∧ ((getLocation r p).1 = 2 → p.X > r.right) ∧
     ((getLocation r p).1 = 1 → p.Y < r.top) ∧ ((getLocation r p).1 = 3 → p.Y > r.bottom) ∧
     (0 ≤ (getLocation r p).1 ∧ (getLocation r p).1 ≤ 4) := by
-  sorry
+  exact Proofs.C06.getLocation_off_boundary r p hb
 
 /-- moving clockwise and back is the identity on the four sides; clockwise neighbours are recognised -/
 theorem adjacent_location_cycle (loc : Int) (h : 0 ≤ loc ∧ loc ≤ 3) :
@@ -33,33 +33,33 @@ theorem adjacent_location_cycle (loc : Int) (h : 0 ≤ loc ∧ loc ≤ 3) :
     headingClockwise loc (getAdjacentLocation loc true) = true ∧
     headingClockwise loc (getAdjacentLocation loc false) = false ∧
     (0 ≤ getAdjacentLocation loc true ∧ getAdjacentLocation loc true ≤ 3) := by
-  sorry
+  exact Proofs.C06.adjacent_location_cycle loc h
 
 theorem areOpposites_iff (a b : Int) (ha : 0 ≤ a ∧ a ≤ 4) (hb : 0 ≤ b ∧ b ≤ 4) :
     areOpposites a b = true ↔ (a - b = 2 ∨ b - a = 2) := by
-  sorry
+  exact Proofs.C06.areOpposites_iff a b ha hb
 
 /-- bit j of getEdgesForPt is set iff the point lies on the line carrying side j -/
 theorem getEdgesForPt_spec (p : Point64) (r : Rect64) (h : r.left < r.right ∧ r.top < r.bottom) :
     (getEdgesForPt p r % 2 = 1 ↔ p.X = r.left) ∧ (getEdgesForPt p r / 2 % 2 = 1 ↔ p.Y = r.top) ∧
     (getEdgesForPt p r / 4 % 2 = 1 ↔ p.X = r.right) ∧ (getEdgesForPt p r / 8 % 2 = 1 ↔ p.Y = r.bottom) := by
-  sorry
+  exact Proofs.C06.getEdgesForPt_spec p r h
 
 /-- fast path "unchanged": if the rectangle contains the path's bounds every vertex is inside it -/
 theorem contains_bounds_all_inside (r : Rect64) (path : List Point64) (hne : path ≠ [])
     (hc : Rect64_Contains r (getBounds path) = true) :
     ∀ p ∈ path, r.left ≤ p.X ∧ p.X ≤ r.right ∧ r.top ≤ p.Y ∧ p.Y ≤ r.bottom := by
-  sorry
+  exact Proofs.C06.contains_bounds_all_inside r path hne hc
 
 /-- fast path "dropped": if the rectangle does not meet the path's bounds, all vertices lie strictly
     beyond one and the same side -/
 theorem not_intersects_all_outside (r : Rect64) (path : List Point64) (hne : path ≠ []) (h : wf r)
     (hc : Rect64_Intersects r (getBounds path) = false) :
     (∀ p ∈ path, p.X < r.left) ∨ (∀ p ∈ path, p.X > r.right) ∨ (∀ p ∈ path, p.Y < r.top) ∨ (∀ p ∈ path, p.Y > r.bottom) := by
-  sorry
+  exact Proofs.C06.not_intersects_all_outside r path hne h hc
 
 theorem isEmpty_iff (r : Rect64) : Rect64_IsEmpty r = true ↔ (r.bottom ≤ r.top ∨ r.right ≤ r.left) := by
-  sorry
+  exact Proofs.C06.isEmpty_iff r
 
 example : wf ⟨0, 0, 10, 10⟩ ∧ (getLocation ⟨0, 0, 10, 10⟩ ⟨5, 5⟩).2 = true := by
   refine ⟨by unfold wf; decide, by decide⟩
